@@ -28,7 +28,11 @@ class UserBase(BaseException):
 
 EXC_KINDS = [("ValueError", ValueError, "exn"), ("UserError(RuntimeError)", UserError, "exn"),
              ("TimeoutError(user)", TimeoutError, "exn"), ("ZeroDivisionError", ZeroDivisionError, "exn"),
-             ("SystemExit", SystemExit, "base"), ("UserBase(BaseException)", UserBase, "base")]
+             ("SystemExit", SystemExit, "base"), ("UserBase(BaseException)", UserBase, "base"),
+             # exception types that numerical or file-handling code likes to catch for its own purposes
+             ("OverflowError", OverflowError, "exn"), ("FloatingPointError", FloatingPointError, "exn"), ("AssertionError", AssertionError, "exn"),
+             ("FileExistsError", FileExistsError, "exn"), ("KeyError", KeyError, "exn"), ("StopIteration", StopIteration, "exn"),
+             ("AttributeError", AttributeError, "exn"), ("MemoryError", MemoryError, "exn"), ("GeneratorExit", GeneratorExit, "base")]
 
 
 def gen_base(rnd, tier, kind=None):
